@@ -1143,7 +1143,13 @@ cab_checksum_update(struct archive_read *a, size_t bytes)
 			memcpy(cfdata->sum_extra, p + sumbytes - odd, odd);
 		cfdata->sum_extra_avail = odd;
 	}
-	cfdata->sum_ptr = NULL;
+	/*
+	 * The rest of the bytes we looked at are still in the read-ahead
+	 * window and may be consumed by a later call without a new look
+	 * (an uncompressed folder whose data is skipped in pieces): go on
+	 * from here then.
+	 */
+	cfdata->sum_ptr = (const unsigned char *)cfdata->sum_ptr + bytes;
 }
 
 static int
